@@ -80,7 +80,62 @@ def run_one(case, tmp):
                                 'exc_repr': repr(o.exc)[:200] if o.exc is not None else None,
                                 'cause': o.cause, 'ops': o.ops, 'fault': o.fault, 'storage': o.storage,
                                 'calls': len(dev.calls), 'dev_results': len(res)})
+    if case.get('reuse'):
+        out['reuse'] = reuse_one_memory_object(case, path)
     return out
+
+
+def reuse_one_memory_object(case, path):
+    """ONE _fjcore.Memory object driven through several run() calls (with / without a last-ops ring, ended normally or by
+    an exception raised from an IO callback), its result attributes read after each - as an embedding application that
+    keeps the object would do.  Only memory safety is at stake here (ASan); the values are not compared."""
+    from fjverif import engines
+    from flipjump.fjm import fjm_reader
+    from flipjump.interpreter import fjm_run
+    from flipjump.utils.exceptions import IOReadOnEOF, FlipJumpException
+    core = fjm_run._fjcore
+    try:
+        reader = fjm_reader.Reader(path)
+    except FlipJumpException:
+        return 'unreadable'
+    m = core.Memory(reader.memory_width)
+    try:
+        for seg in reader.memory_segments:
+            m.add_segment(seg.segment_start, seg.segment_length)
+        for wa in sorted(reader.memory):
+            m.set_words(wa, [reader.memory[wa]])
+    except (ValueError, OverflowError, MemoryError) as e:
+        return 'unloadable:' + type(e).__name__
+    bits = list(case['input_bits'])
+    log = []
+    for ring, fail_at, exc_kind in case['reuse']:
+        calls = [0]
+        pos = [0]
+
+        def tick():
+            calls[0] += 1
+            if fail_at and calls[0] == fail_at:
+                raise (KeyboardInterrupt() if exc_kind == 'kbd' else ValueError('planned'))
+
+        def rb():
+            tick()
+            if pos[0] >= len(bits):
+                raise IOReadOnEOF('eof')
+            pos[0] += 1
+            return bool(bits[pos[0] - 1])
+
+        def wb(b):
+            tick()
+        try:
+            with engines.hang_guard(4):
+                r = m.run(rb, wb, IOReadOnEOF, last_ops_length=ring)
+            log.append(['ok', r[0], r[1]])
+        except BaseException as e:  # noqa
+            log.append(['exc', type(e).__name__])
+        # what fjm_run reads back on either path
+        log.append([len(m.last_run_last_ops), m.last_run_op_count, m.storage_mode])
+    del m
+    return log
 
 
 def main():
